@@ -176,7 +176,7 @@ static int handle_return(hist_t *h, void *ret, int by_flush, int submitter)
                 if (st != ISAL_HASH_CTX_STS_COMPLETE) viol(h, "C06", "not-complete-after-last", "context c%d handed back after LAST with status %d", ri, st);
                 s->st = ST_COMPLETE;
                 h->res->completes++;
-                uint8_t got[64], exp[64]; ref_hash_t t = s->rh;
+                uint8_t got[64] = { 0 }, exp[64] = { 0 }; ref_hash_t t = s->rh;
                 ref_hash_final(&t, exp);
                 halg_digest_bytes(a, s->ctx, got);
                 for (int i = 0; i < a->dbytes; i += 8) { uint64_t w; memcpy(&w, got + i, 8); trace(h, w); }
